@@ -11,7 +11,7 @@ import (
 
 //verif:include ../dnsdata/rdb/zz_verif_model.go
 //verif:include ../db/zz_verif_world.go
-//verif:harness H13_robust property=C13 native=no quick=world=0,layout=2,edns=0;world=1,layout=1,edns=1;world=1,layout=2,edns=0;world=2,layout=0,edns=0;world=3,layout=2,edns=1 thorough=world=0,layout=0,edns=2;world=0,layout=1,edns=4;world=1,layout=2,edns=3;world=2,layout=1,edns=2;world=2,layout=2,edns=1;world=3,layout=0,edns=4
+//verif:harness H13_robust property=C13 native=no quick=world=0,layout=2,edns=0,cache=0;world=1,layout=1,edns=1,cache=0;world=1,layout=2,edns=0,cache=0;world=2,layout=0,edns=0,cache=0;world=3,layout=2,edns=1,cache=0;world=0,layout=2,edns=0,cache=1 thorough=world=0,layout=0,edns=2,cache=0;world=0,layout=1,edns=4,cache=0;world=1,layout=2,edns=3,cache=0;world=2,layout=1,edns=2,cache=0;world=2,layout=2,edns=1,cache=0;world=3,layout=0,edns=4,cache=0;world=0,layout=0,edns=1,cache=1
 
 // verifWellFormed: what C13 demands of a written message.
 func verifWellFormed(q, resp *dns.Msg, tcp bool, tag string) {
@@ -29,10 +29,27 @@ func verifWellFormed(q, resp *dns.Msg, tcp bool, tag string) {
 	nd.Assert(len(buf) <= limit || resp.Truncated, tag+":within-advertised-size-or-TC")
 }
 
+// verifFlipCase flips the case of every ASCII letter.
+func verifFlipCase(s string) string {
+	b := []byte(s)
+	for i := range b {
+		if b[i] >= 'a' && b[i] <= 'z' {
+			b[i] -= 32
+		} else if b[i] >= 'A' && b[i] <= 'Z' {
+			b[i] += 32
+		}
+	}
+	return string(b)
+}
+
 // H13_robust: arbitrary query against a world; no panic, at most one write, well-formed reply.
 func H13_robust() {
 	world, layout := nd.Param("world"), nd.Param("layout")
-	env := verifWorldHandler(world, layout, CacheConfig{})
+	cache := CacheConfig{}
+	if nd.Param("cache") == 1 {
+		cache = CacheConfig{Enabled: true, LRUSize: 4}
+	}
+	env := verifWorldHandler(world, layout, cache)
 	name := verifQuestionName(world)
 	qtype := verifQtypes[nd.Choice(len(verifQtypes))]
 	opts := verifQueryOpts{edns: nd.Param("edns")}
@@ -44,6 +61,18 @@ func H13_robust() {
 	if o := q.IsEdns0(); o != nil {
 		// recorded finding: the BADVERS reply built by coredns' edns.Version has no question section
 		nd.Known("C13-badvers-empty-question", o.Version() != 0)
+	}
+	if cache.Enabled {
+		// an earlier query for the same name in the other letter case and with the opposite RD/CD
+		// bits fills the response cache: the reply to q may then be built from the cached entry
+		p := new(dns.Msg)
+		p.Id = q.Id + 1
+		p.RecursionDesired = !q.RecursionDesired
+		p.CheckingDisabled = !q.CheckingDisabled
+		p.Opcode = q.Opcode
+		p.Question = []dns.Question{{Name: verifFlipCase(name), Qtype: qtype, Qclass: q.Question[0].Qclass}}
+		pw := &verifWriter{tcp: w.tcp, remote: w.remote}
+		_, _ = env.h.ServeDNSWithRCODE(context.Background(), pw, p)
 	}
 	// "returns": names have at most four labels and the stores under sixty keys, so no loop of the
 	// handler or the readers needs anywhere near this many iterations
